@@ -292,7 +292,9 @@ def replay(case):
         print(case["expr"], case["packages"], "->", r)
     except BaseException as e:  # pylint:disable=broad-except
         print(case["expr"], case["packages"], "raised", type(e).__name__, e)
-    return 1
+    # the documented tree of the case lives in the specification's state space: the verdict comes from re-running the check
+    print("re-deciding with the quick tier of the check")
+    return run()
 
 
 if __name__ == "__main__":
